@@ -6,7 +6,7 @@ CONSTANTS
   Packages = {}
   K = 4
   Fmts = {"xlsx", "pptx", "epub"}
-  Wide = FALSE
+  Wide = "some"
 INVARIANTS TypeOK ValidPackage DeclaredPrefix DeclaredOrder OwnPage
 CONSTRAINT Emit
 CHECK_DEADLOCK FALSE
